@@ -48,7 +48,7 @@ import (
 
 const (
 	heavyThreshold = 64 << 20 // a header naming a number >= this may make the implementation allocate that much
-	workerASLimit  = 1 << 30  // RLIMIT_AS of a worker subprocess
+	workerHeadroom = 3 << 29  // a worker may grow its address space by 1.5 GiB (a 2^31-byte allocation never fits)
 	upstreamMarker = "UPSTREAM-ORIGINAL-BODY"
 	sentinelMark   = "SENTINEL-OUTSIDE-ROOT"
 	caseDeadline   = 120 * time.Second
@@ -502,8 +502,9 @@ func runStaticRange(n int, hasRange bool, h string) obs {
 // judging a range case
 
 type viol struct {
-	Sig  string
-	Desc string
+	Sig     string
+	Symptom string
+	Desc    string
 }
 
 type caseResult struct {
@@ -564,7 +565,7 @@ func readParts(b []byte, boundary string) ([]part, error) {
 func judgeRange(mod string, c []byte, e expect, o obs) (vs []viol, outcome string) {
 	n := len(c)
 	add := func(class, symptom, detail string) {
-		vs = append(vs, viol{Sig: mod + ":" + class + ":" + symptom, Desc: detail})
+		vs = append(vs, viol{Sig: mod + ":" + class + ":" + symptom, Symptom: symptom, Desc: detail})
 	}
 	if o.Panic != "" {
 		add(e.Class, "panic", "panic: "+o.Panic)
@@ -672,8 +673,18 @@ func (c rangeCase) String() string {
 	return fmt.Sprintf("%s modifier, %d-byte content, Range: %q", modNames[c.Mod], c.Size, c.Header)
 }
 
+// complexity orders cases for the choice of the reported example: fewer specs, canonical unit, shorter, smaller.
 func (c rangeCase) complexity() int64 {
-	return int64(strings.Count(c.Header, ","))<<40 | int64(len(c.Header))<<24 | int64(c.Size)<<4 | int64(c.Mod)
+	unit := int64(3)
+	switch {
+	case strings.HasPrefix(c.Header, "bytes="):
+		unit = 0
+	case strings.HasPrefix(c.Header, "Bytes="):
+		unit = 1
+	case !strings.Contains(c.Header, "="):
+		unit = 2
+	}
+	return int64(strings.Count(c.Header, ","))<<44 | unit<<40 | int64(len(c.Header))<<24 | int64(c.Size)<<4 | int64(c.Mod)
 }
 
 func evalRangeCase(c rangeCase) caseResult {
@@ -741,12 +752,12 @@ func buildTree(tier string) error {
 var segAlphabet = []string{"", ".", "..", "a", "sub", "%2e%2e", "%2f", "\\"}
 
 var explicitMap = map[string]string{
-	"/a":         "/sub/a",           // benign remap
-	"/sub/a":     "/missing",         // mapped to a file that does not exist: 404 even though /sub/a exists
-	"/sub/sub/a": "/../a",            // configured value climbing out of the root
-	"/sub/sub":   "../../sub/a",      // same, relative spelling
-	"/\\":        "sub/../../../a",   // same, two levels
-	"/sub/\\":    "sub/./sub/../a",   // dotted but staying inside
+	"/a":         "/sub/a",         // benign remap
+	"/sub/a":     "/missing",       // mapped to a file that does not exist: 404 even though /sub/a exists
+	"/sub/sub/a": "/../a",          // configured value climbing out of the root
+	"/sub/sub":   "../../sub/a",    // same, relative spelling
+	"/\\":        "sub/../../../a", // same, two levels
+	"/sub/\\":    "sub/./sub/../a", // dotted but staying inside
 }
 
 type pathCase struct {
@@ -766,7 +777,7 @@ func (c pathCase) String() string {
 
 // normalize removes dot segments from a decoded URL path without ever climbing above the root; the result is
 // "" (the root itself) or a relative slash separated path.
-func normalize(p string) string {
+func normalize(p string) (rel string, climbed bool) {
 	var st []string
 	for _, s := range strings.Split(p, "/") {
 		switch s {
@@ -774,12 +785,14 @@ func normalize(p string) string {
 		case "..":
 			if len(st) > 0 {
 				st = st[:len(st)-1]
+			} else {
+				climbed = true // tried to leave the root: clamped
 			}
 		default:
 			st = append(st, s)
 		}
 	}
-	return strings.Join(st, "/")
+	return strings.Join(st, "/"), climbed
 }
 
 // modelFS answers what lies at a normalized relative path beneath the root: "file", "dir", "through_file", "missing".
@@ -820,7 +833,7 @@ func evalPathCase(c pathCase) (vs []viol, nontrivial bool, outcome string) {
 	o := observe(mod.ModifyResponse, res, orig, 1<<16)
 
 	// reference resolution
-	rel := normalize(req.URL.Path)
+	rel, _ := normalize(req.URL.Path)
 	class := "path_" + modelFS(rel)
 	want := ""
 	if modelFS(rel) == "file" {
@@ -828,10 +841,10 @@ func evalPathCase(c pathCase) (vs []viol, nontrivial bool, outcome string) {
 	}
 	if c.Map {
 		if v, ok := explicitMap["/"+rel]; ok {
-			mrel := normalize(v)
+			mrel, climbed := normalize(v)
 			class = "explicit_map_" + modelFS(mrel)
-			if strings.Contains(v, "..") && mrel != strings.Trim(filepath.ToSlash(filepath.Clean(v)), "/") {
-				class = "explicit_map_escape"
+			if climbed {
+				class = "explicit_map_climbing_value"
 			}
 			want = ""
 			if modelFS(mrel) == "file" {
@@ -964,7 +977,9 @@ func (a *aggregator) outcome(o string, n int64) {
 // worker subprocess (heavy cases): one case per line on stdin, one result per line on stdout
 
 func workerMain() {
-	lim := syscall.Rlimit{Cur: workerASLimit, Max: workerASLimit}
+	// The Go runtime and libc reserve address space at start-up; cap the growth from here on.
+	asLimit := vmSize() + workerHeadroom
+	lim := syscall.Rlimit{Cur: asLimit, Max: asLimit}
 	if err := syscall.Setrlimit(syscall.RLIMIT_AS, &lim); err != nil {
 		fmt.Fprintln(os.Stderr, "C20 worker: cannot set RLIMIT_AS:", err)
 		os.Exit(3)
@@ -995,6 +1010,18 @@ func workerMain() {
 			return
 		}
 	}
+}
+
+// vmSize returns the current virtual size of the process in bytes.
+func vmSize() uint64 {
+	b, err := os.ReadFile("/proc/self/statm")
+	if err != nil {
+		fmt.Fprintln(os.Stderr, "C20 worker: cannot read /proc/self/statm:", err)
+		os.Exit(3)
+	}
+	f := strings.Fields(string(b))
+	pages, _ := strconv.ParseUint(f[0], 10, 64)
+	return pages * uint64(os.Getpagesize())
 }
 
 type worker struct {
@@ -1126,13 +1153,21 @@ func main() {
 		}
 	}
 	var nontrivial, calls int64
+	type failed struct {
+		c  rangeCase
+		vs []viol
+	}
+	var failedMu sync.Mutex
+	var failures []failed
 	record := func(c rangeCase, r caseResult) {
 		if r.Nontrivial {
 			atomic.AddInt64(&nontrivial, 1)
 		}
 		atomic.AddInt64(&calls, 1)
-		for _, v := range r.Viols {
-			agg.add(v.Sig, v.Desc, c.complexity(), map[string]interface{}{"part": "range", "case": c})
+		if len(r.Viols) > 0 {
+			failedMu.Lock()
+			failures = append(failures, failed{c, r.Viols})
+			failedMu.Unlock()
 		}
 		agg.outcome(modNames[c.Mod]+":"+r.Outcome, 1)
 	}
@@ -1177,8 +1212,8 @@ func main() {
 						symptom = "oom"
 					}
 					r = caseResult{Nontrivial: e.Allow206, Outcome: e.Class + "/" + symptom,
-						Viols: []viol{{Sig: modNames[c.Mod] + ":" + e.Class + ":" + symptom,
-							Desc: fmt.Sprintf("%s: the process serving the request died under a %d MiB address-space cap (allocation sized from the header): %s", c, workerASLimit>>20, why)}}}
+						Viols: []viol{{Sig: modNames[c.Mod] + ":" + e.Class + ":" + symptom, Symptom: symptom,
+							Desc: fmt.Sprintf("%s: the process serving the request died when its address space was allowed to grow by %d MiB (allocation sized from the header): %s", c, workerHeadroom>>20, why)}}}
 				}
 				record(c, r)
 			}
@@ -1188,6 +1223,44 @@ func main() {
 		}(s)
 	}
 	wg.Wait()
+
+	// A violating header of several specs is attributed to the scenario class of its first single-spec
+	// sub-header (same unit, size and modifier; every one of them is a case of the enumeration) that shows the
+	// same symptom, so that one defect yields one signature whatever else the header contains; when no single
+	// spec shows it the class is multi_range.
+	type skey struct {
+		mod, size int
+		header    string
+	}
+	singles := map[skey][]viol{}
+	for _, f := range failures {
+		if !strings.Contains(f.c.Header, ",") {
+			singles[skey{f.c.Mod, f.c.Size, f.c.Header}] = f.vs
+		}
+	}
+	for _, f := range failures {
+		unit, set := "", f.c.Header
+		if i := strings.IndexByte(set, '='); i >= 0 {
+			unit, set = set[:i+1], set[i+1:]
+		}
+		for _, v := range f.vs {
+			sig := v.Sig
+			if strings.Contains(set, ",") && !strings.Contains(sig, ":answer_416:") {
+				// no single spec of the header shows the symptom: the defect needs several ranges
+				sig = modNames[f.c.Mod] + ":multi_range:" + v.Symptom
+			search:
+				for _, sp := range strings.Split(set, ",") {
+					for _, sv := range singles[skey{f.c.Mod, f.c.Size, unit + sp}] {
+						if sv.Symptom == v.Symptom {
+							sig = sv.Sig
+							break search
+						}
+					}
+				}
+			}
+			agg.add(sig, v.Desc, f.c.complexity(), map[string]interface{}{"part": "range", "case": f.c})
+		}
+	}
 
 	// ---- part 2: paths ----
 	pcs := pathCases(tier)
